@@ -281,11 +281,7 @@ Proof.
   destruct (got_pragma (pragma_run (pragma_init true) 1 ls)) as [[|] |]; try congruence; apply flag_true.
 Qed.
 
-(* the third Pragmas message can never be produced: the `#pragma once` line itself starts with "#", which settles
-   report_empty_line_error = False before any empty line can have been recorded *)
-Definition pragma_inv (st : pstate) : Prop :=
-  report_empty st <> Some true /\ (report_empty st = None -> got_pragma st <> Some true /\ empty_no st = 0).
-
+(* the third Pragmas message: an empty line between `#pragma once` and the first #include *)
 Lemma starts_with_trans a b c : starts_with a b = true -> starts_with b c = true -> starts_with a c = true.
 Proof.
   revert b c. induction a as [| x a IH]; intros b c H1 H2; [reflexivity |].
@@ -300,55 +296,92 @@ Proof.
   apply andb_true_iff in H. destruct H as [E R]. f_equal; [lia | apply IH; exact R].
 Qed.
 
-Lemma pragma_step_inv st n l : pragma_inv st -> pragma_inv (pragma_step st n l).
+Lemma pragma_run_app l1 : forall st n rest, pragma_run st n (l1 ++ rest) = pragma_run (pragma_run st n l1) (n + Z.of_nat (length l1)) rest.
 Proof.
-  assert (HashInc : forall x, starts_with pp_include x = true -> starts_with pp_hash x = true).
-  { intros x Hx. apply (starts_with_trans pp_hash pp_include x); [reflexivity | exact Hx]. }
-  assert (HashPragma : starts_with pp_hash pragma_once = true) by reflexivity.
-  intros [I1 I2]. unfold pragma_step.
-  set (st1 := if starts_with lic_open l then mkps (got_pragma st) true (empty_no st) (report_empty st) 1 else st).
-  assert (J : report_empty st1 = report_empty st /\ got_pragma st1 = got_pragma st /\ empty_no st1 = empty_no st).
-  { unfold st1. destruct (starts_with lic_open l); simpl; auto. }
-  destruct J as (J1 & J2 & J3).
-  destruct (inside st1 =? 1).
-  { destruct (contains lic_close l); unfold pragma_inv; cbn [report_empty got_pragma empty_no]; rewrite ?J1, ?J2, ?J3; auto. }
-  destruct (inside st1 =? 2).
-  { unfold pragma_inv; cbn [report_empty got_pragma empty_no]; rewrite ?J1, ?J2, ?J3; auto. }
-  unfold pragma_inv. cbn [report_empty got_pragma empty_no]. rewrite J1, J2, J3.
-  destruct (report_empty st) as [[|] |] eqn:ER.
-  - congruence.
-  - split.
-    + destruct (starts_with pp_include l), (starts_with pp_hash l); congruence.
-    + destruct (starts_with pp_include l), (starts_with pp_hash l); intro X; discriminate X.
-  - destruct (I2 eq_refl) as [G E]. rewrite E.
-    destruct (starts_with pp_include l) eqn:EI.
-    + rewrite (HashInc l EI).
-      assert (C : cmp empty_after_op empty_after_bound 0 = false) by reflexivity.
-      try rewrite C. split; [congruence | intro X; discriminate X].
-    + destruct (starts_with pp_hash l) eqn:EH.
-      * split; [congruence | intro X; discriminate X].
-      * split; [congruence |]. intros _.
-        destruct (got_pragma st) as [[|] |] eqn:EG; try congruence.
-        -- split; [congruence | reflexivity].
-        -- split; [| reflexivity]. intro X. inversion X as [Y]. apply list_eqb_eq in Y. subst l. rewrite HashPragma in EH. discriminate.
+  induction l1 as [| x l1 IH]; intros st n rest; simpl.
+  - f_equal. lia.
+  - rewrite IH. f_equal. lia.
 Qed.
 
-Lemma pragma_run_inv ls : forall st n, pragma_inv st -> pragma_inv (pragma_run st n ls).
-Proof. induction ls as [| l ls IH]; intros st n H; simpl; [exact H | apply IH; apply pragma_step_inv; exact H]. Qed.
+(* the part of check() after the comment handling *)
+Definition pragma_body (st : pstate) (n : Z) (l : line) : pstate :=
+  let re1 := if starts_with pp_include l
+             then match report_empty st with None => Some (cmp empty_after_op empty_after_bound (empty_no st)) | x => x end
+             else report_empty st in
+  let re2 := if starts_with pp_hash l && (match got_pragma st with None => false | Some _ => true end)
+             then match re1 with None => Some false | x => x end else re1 in
+  let en := match got_pragma st with Some true => if is_nil l then n else empty_no st | _ => empty_no st end in
+  let gp := match got_pragma st with None => Some (list_eqb l pragma_once) | x => x end in
+  mkps gp (got_license st) en re2 (inside st).
 
-Lemma pragma_empty_line_rule_is_dead hdr ls n : ~ In (mkf P n "Empty line after `#pragma once`") (pragma_check hdr ls).
+Lemma pragma_step_body st n l :
+  starts_with lic_open l = false -> inside st <> 1 -> inside st <> 2 -> pragma_step st n l = pragma_body st n l.
 Proof.
-  unfold pragma_check, pragma_final.
-  assert (I : pragma_inv (pragma_run (pragma_init hdr) 1 ls)).
-  { apply pragma_run_inv. unfold pragma_inv, pragma_init.
-    destruct hdr; simpl.
-    - split; [congruence |]. intros _. split; [congruence | reflexivity].
-    - split; [congruence |]. intro X. discriminate X. }
-  destruct I as [I1 _]. intro H.
-  apply in_app_or in H. destruct H as [H | H]; [apply In_flag in H; destruct H as [_ H]; discriminate |].
-  apply in_app_or in H. destruct H as [H | H]; [apply In_flag in H; destruct H as [_ H]; discriminate |].
-  apply In_flag in H. destruct H as [H _].
-  destruct (report_empty (pragma_run (pragma_init hdr) 1 ls)) as [[|] |]; congruence.
+  intros H H1 H2. unfold pragma_step. rewrite H.
+  replace (inside st =? 1) with false by lia. replace (inside st =? 2) with false by lia. reflexivity.
+Qed.
+
+Lemma include_not_licence l : starts_with pp_include l = true -> starts_with lic_open l = false /\ is_nil l = false.
+Proof.
+  destruct l as [| c l]; [discriminate |]. unfold pp_include, lic_open. cbn [starts_with is_nil]. intro H.
+  apply andb_true_iff in H. destruct H as [E _]. split; [| reflexivity].
+  destruct (47 =? c) eqn:X; [lia | reflexivity].
+Qed.
+
+(* once the verdict is settled it stays; the recorded line number is that of the last empty line seen, so it only grows *)
+Lemma pragma_step_keeps st n l :
+  report_empty st = Some true ->
+  report_empty (pragma_step st n l) = Some true /\ (empty_no (pragma_step st n l) = empty_no st \/ empty_no (pragma_step st n l) = n).
+Proof.
+  intro H. unfold pragma_step.
+  set (st1 := if starts_with lic_open l then mkps (got_pragma st) true (empty_no st) (report_empty st) 1 else st).
+  assert (J : report_empty st1 = Some true /\ empty_no st1 = empty_no st).
+  { unfold st1. destruct (starts_with lic_open l); simpl; auto. }
+  destruct J as [J1 J2].
+  destruct (inside st1 =? 1); [destruct (contains lic_close l); cbn [report_empty empty_no]; auto |].
+  destruct (inside st1 =? 2); [cbn [report_empty empty_no]; auto |].
+  cbn [report_empty empty_no]. rewrite J1, J2. split.
+  - destruct (starts_with pp_include l), (starts_with pp_hash l && match got_pragma st1 with None => false | Some _ => true end); reflexivity.
+  - destruct (got_pragma st1) as [[|] |]; auto. destruct (is_nil l); auto.
+Qed.
+
+Lemma pragma_run_keeps ls : forall st n m,
+  report_empty st = Some true -> m <= empty_no st -> m <= n ->
+  report_empty (pragma_run st n ls) = Some true /\ m <= empty_no (pragma_run st n ls).
+Proof.
+  induction ls as [| l ls IH]; intros st n m H He Hn; simpl; [auto |].
+  destruct (pragma_step_keeps st n l H) as [K1 K2]. apply IH; [exact K1 | destruct K2 as [-> | ->]; lia | lia].
+Qed.
+
+Lemma pragma_empty_line_reports l1 inc l2 :
+  got_pragma (pragma_run (pragma_init true) 1 l1) = None -> report_empty (pragma_run (pragma_init true) 1 l1) = None ->
+  inside (pragma_run (pragma_init true) 1 l1) <> 1 -> inside (pragma_run (pragma_init true) 1 l1) <> 2 ->
+  starts_with pp_include inc = true ->
+  exists n, Z.of_nat (length l1) + 2 <= n
+            /\ In (mkf P n "Empty line after `#pragma once`") (pragma_check true (l1 ++ pragma_once :: [] :: inc :: l2)).
+Proof.
+  intros Hg Hr H1 H2 Hi. unfold pragma_check. rewrite pragma_run_app.
+  destruct (pragma_run (pragma_init true) 1 l1) as [gp gl en re ins]. cbn [got_pragma report_empty inside] in *. subst gp re.
+  set (n0 := 1 + Z.of_nat (length l1)).
+  destruct (include_not_licence inc Hi) as [Li Ni].
+  cbn [pragma_run].
+  rewrite (pragma_step_body _ n0 pragma_once) by (try reflexivity; assumption).
+  assert (S1 : pragma_body (mkps None gl en None ins) n0 pragma_once = mkps (Some true) gl en None ins) by reflexivity.
+  rewrite S1.
+  rewrite (pragma_step_body _ (n0 + 1) []) by (try reflexivity; assumption).
+  assert (S2 : pragma_body (mkps (Some true) gl en None ins) (n0 + 1) [] = mkps (Some true) gl (n0 + 1) None ins) by reflexivity.
+  rewrite S2.
+  rewrite (pragma_step_body _ (n0 + 1 + 1) inc) by assumption.
+  assert (S3 : report_empty (pragma_body (mkps (Some true) gl (n0 + 1) None ins) (n0 + 1 + 1) inc) = Some true
+               /\ empty_no (pragma_body (mkps (Some true) gl (n0 + 1) None ins) (n0 + 1 + 1) inc) = n0 + 1).
+  { unfold pragma_body. cbn [report_empty got_pragma empty_no]. rewrite Hi, Ni.
+    assert (C : cmp empty_after_op empty_after_bound (n0 + 1) = true) by (unfold empty_after_op, empty_after_bound, n0; cbn [cmp]; lia).
+    rewrite C. split; [destruct (starts_with pp_hash inc && true); reflexivity | reflexivity]. }
+  destruct S3 as [S3a S3b].
+  destruct (pragma_run_keeps l2 _ (n0 + 1 + 1 + 1) (n0 + 1) S3a ltac:(lia) ltac:(lia)) as [K1 K2].
+  exists (empty_no (pragma_run (pragma_body (mkps (Some true) gl (n0 + 1) None ins) (n0 + 1 + 1) inc) (n0 + 1 + 1 + 1) l2)).
+  split; [subst n0; lia |].
+  unfold pragma_final. rewrite K1. do 2 (apply in_or_app; right). apply flag_true.
 Qed.
 
 (* ---- region pairing ---- *)
@@ -555,4 +588,14 @@ Proof.
   intros ->. unfold delete_at. rewrite firstn_app, Nat.sub_diag, firstn_all, firstn_O, app_nil_r.
   rewrite skipn_app. replace (skipn (length l1 + 1) l1) with (@nil A) by (symmetry; apply skipn_all2; lia).
   replace (length l1 + 1 - length l1)%nat with 1%nat by lia. reflexivity.
+Qed.
+
+Lemma seed_after_pragma (l1 : list line) inc l2 :
+  seed_line (S (length l1)) [] (l1 ++ pragma_once :: inc :: l2) = l1 ++ pragma_once :: [] :: inc :: l2.
+Proof.
+  unfold seed_line, insert_at.
+  replace (l1 ++ pragma_once :: inc :: l2) with ((l1 ++ [pragma_once]) ++ inc :: l2) by (rewrite <- app_assoc; reflexivity).
+  assert (L : length (l1 ++ [pragma_once]) = S (length l1)) by (rewrite app_length; simpl; lia).
+  rewrite <- L, firstn_app, firstn_all, Nat.sub_diag, firstn_O, app_nil_r.
+  rewrite skipn_app, skipn_all, Nat.sub_diag. simpl. rewrite <- app_assoc. reflexivity.
 Qed.
